@@ -10,6 +10,7 @@ import (
 	"os"
 	"path/filepath"
 	"regexp"
+	"sort"
 	"strings"
 )
 
@@ -32,6 +33,37 @@ var (
 	c19ReFallb   = regexp.MustCompile(`^HANDLERS="\$\{HANDLERS\} ([A-Za-z_]+)"$`)
 	c19ReConfig  = regexp.MustCompile(`^if \[\[ "\$\{1:-\}" == "(--[a-z]+)" \]\] ; then$`)
 )
+
+var (
+	// `function name() {`, `function name {`, `name() {` — anywhere, also nested or indented
+	c19ReAnyFunc = regexp.MustCompile(`^(function\s+([^\s(){}]+)|([^\s(){}=$"']+)\s*\(\s*\))\s*(\(\s*\))?\s*(\{|$)`)
+	c19ReRebind  = regexp.MustCompile(`(^|[\s;&|(])(eval|alias|unset|declare\s+-[a-zA-Z]*f|typeset\s+-[a-zA-Z]*f|enable|builtin\s+unset)([\s;]|$)`)
+)
+
+// c19Body: the statements of a top-level function of hook.sh (trimmed, comments and blank lines dropped).
+func c19Body(lines []string, fn string) []string {
+	var body []string
+	in := false
+	for _, raw := range lines {
+		if m := c19ReFunc.FindStringSubmatch(raw); m != nil {
+			in = m[1] == fn
+			continue
+		}
+		if raw == "}" {
+			in = false
+			continue
+		}
+		t := strings.TrimSpace(raw)
+		if i := strings.Index(t, " # "); i >= 0 {
+			t = strings.TrimSpace(t[:i])
+		}
+		if !in || t == "" || strings.HasPrefix(t, "#") {
+			continue
+		}
+		body = append(body, t)
+	}
+	return body
+}
 
 var c19ReIdxExp = regexp.MustCompile(`\$\{?BINDING_CONTEXT_CURRENT_INDEX(:?[-=]([^}]*))?\}?`)
 
@@ -334,6 +366,45 @@ func c19Facts(l *leanDefs) {
 		stale = true
 	}
 	l.def("c19CtxIndexDefault", "Option Nat", idxDefault, csrc+" context::jq (default of the index expansion, none = plain ${BINDING_CONTEXT_CURRENT_INDEX})")
+	// every function the bundled library defines when it is loaded (shell_lib.sh and the framework files
+	// it sources): loading it — before, after or between the hook's own definitions, once or twice — must
+	// not bind a name of the hook's namespace (__config__, __main__, __on_*). A statement that can bind or
+	// remove a function in another way (eval, alias, unset, declare -f) is not understood: stale.
+	var libFns []string
+	libFiles := []string{"shell_lib.sh"}
+	if ms, err := filepath.Glob(filepath.Join(repo, "frameworks/shell/*.sh")); err == nil {
+		sort.Strings(ms)
+		for _, m := range ms {
+			libFiles = append(libFiles, "frameworks/shell/"+filepath.Base(m))
+		}
+	}
+	for _, f := range libFiles {
+		fb, err := os.ReadFile(filepath.Join(repo, f))
+		if err != nil {
+			stale = true
+			continue
+		}
+		for _, raw := range strings.Split(string(fb), "\n") {
+			t := strings.TrimSpace(raw)
+			if strings.HasPrefix(t, "#") {
+				continue
+			}
+			if m := c19ReAnyFunc.FindStringSubmatch(t); m != nil {
+				if m[2] != "" {
+					libFns = append(libFns, m[2])
+				} else {
+					libFns = append(libFns, m[3])
+				}
+			}
+			if c19ReRebind.MatchString(t) {
+				stale = true
+			}
+		}
+	}
+	l.def("c19LibFunctions", "List String", leanStrList(libFns), "shell_lib.sh + frameworks/shell/*.sh (every function defined by loading the library)")
+	// hook::_run_first_available_handler runs in the hook's main shell (only the handler itself is put into a
+	// sub-shell): its statements, verbatim, and the loop header of hook::run
+	l.def("c19RunnerBody", "List String", leanStrList(c19Body(lines, "hook::_run_first_available_handler")), src+" hook::_run_first_available_handler")
 	l.def("c19NoGlob", "Bool", fmt.Sprintf("%v", noGlob), src+" hook::_get_possible_handler_names (set -f)")
 	l.def("c19Stale", "Bool", fmt.Sprintf("%v", stale), src)
 }
